@@ -123,9 +123,12 @@ class Encoder(object):
         Default encoder for all objects that do not have a specific encoder function
         registered. This function simply calls :meth:`str()` on the object.
         """
-        if isinstance(val, str):
-            # a subclass of str is not found by the exact-type lookup; it is still text
-            return cql_quote(val)
+        # a subclass of a supported type is not found by the exact-type lookup:
+        # encode it like its closest supported base (a subclass of str is still text)
+        for base in type(val).__mro__[1:]:
+            encoder = self.mapping.get(base)
+            if encoder is not None and encoder != self.cql_encode_object:
+                return encoder(val)
         return str(val)
 
     def cql_encode_float(self, val):
